@@ -250,6 +250,17 @@ func runWorker(master uint64, worker, workers, scheds, maxProgs int, budget floa
 			}
 		}
 		progress()
+		writeMarker := func(s int, cfg RunCfg) {
+			if outPath == "" {
+				return
+			}
+			// marker for the driver: if this process dies, this is the run that killed it
+			cur := &Replay{Property: "C10", MasterSeed: master, RunIndex: idx, SchedIndex: s, Workload: w, Run: cfg,
+				Violation: &Violation{Class: "process_crash", Task: -1, Op: -1}, FindingKey: "process_crash"}
+			b, _ := json.Marshal(cur)
+			_ = os.WriteFile(outPath+".current", b, 0o644)
+		}
+		writeMarker(-1, RunCfg{Policy: simrt.Policy{Mode: "serial"}})
 		adm := computeAdmissible(w, prep, warm, wseed, 4)
 		st.SeqOrders += adm.orders + w.NumOps()
 		if adm.SeqViolation != nil {
@@ -292,13 +303,7 @@ func runWorker(master uint64, worker, workers, scheds, maxProgs int, budget floa
 				pol = genPolicy(rng, len(w.Tasks), estYields)
 			}
 			cfg := RunCfg{Seed: rng.Uint64(), PermSeed: simrt.Derive(wseed, 0x9e, uint64(s)), Policy: pol}
-			if outPath != "" {
-				// marker for the driver: if this process dies, this is the run that killed it
-				cur := &Replay{Property: "C10", MasterSeed: master, RunIndex: idx, SchedIndex: s, Workload: w, Run: cfg,
-					Violation: &Violation{Class: "process_crash", Task: -1, Op: -1}, FindingKey: "process_crash"}
-				b, _ := json.Marshal(cur)
-				_ = os.WriteFile(outPath+".current", b, 0o644)
-			}
+			writeMarker(s, cfg)
 			progress()
 			r := runSim(w, prep, warm, cfg, false)
 			if s == 0 {
